@@ -136,7 +136,8 @@ def run(ctx):
             f = ctx.match_known(it.key())
             if not f and cname.startswith("slg") and what == "wrong-definite-answer" and truth == 1 and (f7q_of.get(k, 0) & 1):
                 f = ctx.match_known(None, "F7q")
-            if not f and cname.startswith("slg") and what == "panic" and logic.panic_site(ans) == "panic:chalk-engine/src/logic.rs" and (f7q_of.get(k, 0) & 2):
+            if not f and cname.startswith("slg") and (f7q_of.get(k, 0) & 2) and (
+                    (what == "panic" and logic.panic_site(ans) == "panic:chalk-engine/src/logic.rs") or what == "ambiguous-within-limits"):
                 f = ctx.match_known(None, "F7n")
             if f:
                 ctx.known_finding(f, "%s | %s | %s" % (cname, it.goal_text, kind))
